@@ -216,7 +216,7 @@ func (eval *Evaluator) evaluateFromDiscreteLogSets(GaloisElement func(k int) (ga
 	v++
 
 	// Second and third conditions of line 7 or 17
-	if v == windowSize || k == 1 {
+	if v == windowSize || k == 1 || k == -1 {
 
 		if err := eval.Automorphism(acc, GaloisElement(v), acc); err != nil {
 			return v, err
@@ -245,8 +245,14 @@ func getGaloisElementInverseMap(GaloisGen uint64, N int) (GaloisGenDiscreteLog m
 	var pow uint64 = 1
 	for i := 0; i < NHalf; i++ {
 		GaloisGenDiscreteLog[pow] = i
-		/* #nosec G115 -- twoN cannot be negative */
-		GaloisGenDiscreteLog[uint64(twoN)-pow] = -i
+		if i == 0 {
+			// -g^{0} = -1: class 0 of the negative set is stored under 2N (-0 would collide with the entry of +1)
+			/* #nosec G115 -- twoN cannot be negative */
+			GaloisGenDiscreteLog[uint64(twoN)-pow] = twoN
+		} else {
+			/* #nosec G115 -- twoN cannot be negative */
+			GaloisGenDiscreteLog[uint64(twoN)-pow] = -i
+		}
 		pow *= GaloisGen
 		pow &= mask
 	}
@@ -265,6 +271,11 @@ func (eval *Evaluator) getDiscreteLogSets(a []uint64) (discreteLogSets map[int][
 
 		if ai&1 != 1 && ai != 0 {
 			panic("getDiscreteLogSets: a[i] is not odd and thus not an element of Z_{2N}^{*} -> a[i] = (+/- 1) * g^{k} does not exist.")
+		}
+
+		// a[i] = 0: X^{0 * s[i]} = 1, nothing to accumulate
+		if ai == 0 {
+			continue
 		}
 
 		dlog := GaloisGenDiscreteLog[ai]
